@@ -67,6 +67,7 @@ struct Params {
   std::vector<std::string> obj_postfixes, glob_postfixes;
   int di = 0, ci = 0;
   int dirarg_mode[2] = {0, 0};  // TWODIRS: 0 real, 1 NULL, 2 ""
+  std::vector<std::string> dir_override;  // TWODIRS: other directory names (econftool: /usr/etc, /etc)
 
   bool dropins_only() const { return name_mode != 0; }
   std::string sfx() const { return suffix_mode >= 2 ? std::string() : "." + sfx_word; }
@@ -97,12 +98,13 @@ struct TreeOpts {
   bool allow_links = true;
   bool two_or_three_layers = false;  // C12
   int fixed_di = -1;
+  bool multiline_values = false;  // some values get a continuation line (econftool prints them on several lines)
 };
 
 // ---------------------------------------------------------------- content
 // merge-tame content: sections {"",A,B,C}, keys k1..k5, each (section,key) at
 // most once, sections contiguous, group-less first, values tagged with origin.
-inline void gen_tame_content(Src &s, TFile &f, const std::string &D) {
+inline void gen_tame_content(Src &s, TFile &f, const std::string &D, bool multiline = false) {
   static const char *secs[3] = {"A", "B", "C"};
   std::vector<std::string> order = {""};
   // random order of the named sections
@@ -130,6 +132,11 @@ inline void gen_tame_content(Src &s, TFile &f, const std::string &D) {
     for (int k : ks) {
       std::string key = "k" + std::to_string(k);
       std::string val = f.where + ":" + std::to_string(n++);
+      if (multiline && D != " " && s.chance(25)) {
+        f.content.append(sec, key, val + "\n  " + val + "-more");
+        f.text += key + sep + val + "\n  " + val + "-more\n";
+        continue;
+      }
       f.content.append(sec, key, val);
       f.text += key + sep + val + "\n";
     }
@@ -212,6 +219,8 @@ inline std::vector<std::string> layer_dirs(const Params &p, int nlayers) {
     }
   } else if (p.scheme == S_EXPLICIT) {
     for (int i = 0; i < nlayers; i++) d.push_back("/d" + std::to_string(i + 1));
+  } else if (p.dir_override.size() == 2) {
+    d = p.dir_override;
   } else {
     d.push_back("/dist");
     d.push_back("/etc");
@@ -220,14 +229,14 @@ inline std::vector<std::string> layer_dirs(const Params &p, int nlayers) {
 }
 
 inline TFile gen_file_node(Src &s, const std::string &name, const std::string &where, const std::string &D,
-                           bool allow_links, bool is_main) {
+                           bool allow_links, bool is_main, bool multiline = false) {
   TFile f;
   f.name = name;
   f.where = where;
   size_t k = s.weighted({70, is_main ? 10 : 6, allow_links ? (is_main ? 10 : 5) : 0, allow_links ? 5 : 0});
   f.kind = (FKind)k;
   if (f.kind == F_REGULAR || f.kind == F_LINK_REGULAR) {
-    gen_tame_content(s, f, D);
+    gen_tame_content(s, f, D, multiline);
     if (f.content.entries.empty() && f.kind == F_REGULAR && f.text.empty()) f.kind = F_EMPTY;
   }
   return f;
@@ -266,7 +275,7 @@ inline Tree gen_tree(Src &s, const Params &p, const TreeOpts &o) {
     auto lsp = s.span();
     // main file
     if (!p.dropins_only() && !L.dir_arg_missing && s.chance(45)) {
-      L.main.reset(new TFile(gen_file_node(s, name + sfx, L.label + "/" + name + sfx, D, o.allow_links, true)));
+      L.main.reset(new TFile(gen_file_node(s, name + sfx, L.label + "/" + name + sfx, D, o.allow_links, true, o.multiline_values)));
     }
     // distractor main-like files
     if (!L.dir_arg_missing && s.chance(15)) {
@@ -308,7 +317,7 @@ inline Tree gen_tree(Src &s, const Params &p, const TreeOpts &o) {
         if (fn.empty() || fn == "." || fn == "..") continue;
         if (std::find(used_names.begin(), used_names.end(), fn) != used_names.end()) continue;
         used_names.push_back(fn);
-        TFile f = gen_file_node(s, fn, L.label + "/" + pf + "/" + fn, D, o.allow_links, false);
+        TFile f = gen_file_node(s, fn, L.label + "/" + pf + "/" + fn, D, o.allow_links, false, o.multiline_values);
         d.files.push_back(f);
         if (effective) budget--;
       }
